@@ -2,8 +2,10 @@
 Helper lemmas about the model of `dir_writer.c` (`Sqfs/Model/DirWriter.lean`).
 -/
 import Sqfs.Model.DirWriter
+import Sqfs.Proofs.MetaWriter
 namespace Sqfs.DirWriter
 open Sqfs.Consts
+open Sqfs.MetaWriter (Codec St append stream)
 
 theorem sdiff32_self (a : Nat) : sdiff32 a a = 0 := by
   unfold sdiff32
@@ -105,6 +107,148 @@ def RunOk (r : Run) : Prop :=
     ∀ e ∈ r.ents, e.inodeRef >>> 16 = first.inodeRef >>> 16 ∧
       -32767 ≤ sdiff32 e.inodeNum r.inodeNumber ∧ sdiff32 e.inodeNum r.inodeNumber ≤ 32767
 
+theorem dirEndGoM_runs_ok (cmp : Codec) : ∀ (fuel : Nat) (st : St) (ds : Nat) (ents : List DEnt),
+    ∀ r ∈ (dirEndGoM cmp fuel st ds ents).1, RunOk r := by
+  intro fuel
+  induction fuel with
+  | zero => intro st ds ents r hr; simp [dirEndGoM] at hr
+  | succ f ih =>
+    intro st ds ents r hr
+    cases ents with
+    | nil => simp [dirEndGoM] at hr
+    | cons first rest =>
+      simp only [dirEndGoM, List.mem_cons] at hr
+      obtain ⟨h1, h2, h3, h4, _⟩ := conseqCount_spec st.cur.length first rest
+      rcases hr with hr | hr
+      · subst hr
+        obtain ⟨n, hn⟩ : ∃ n, conseqCount st.cur.length (first :: rest) = n + 1 :=
+          ⟨conseqCount st.cur.length (first :: rest) - 1, by omega⟩
+        refine ⟨first, rest.take n, ?_, ?_, rfl, rfl, ?_⟩
+        · simp [hn]
+        · simp only [List.length_take]; omega
+        · intro e he
+          exact h4 e he
+      · exact ih _ _ _ r hr
+
+/-- nothing is lost or reordered: the runs, concatenated, are the entry list -/
+theorem dirEndGoM_flatten (cmp : Codec) : ∀ (fuel : Nat) (st : St) (ds : Nat) (ents : List DEnt), ents.length < fuel →
+    ((dirEndGoM cmp fuel st ds ents).1.map (·.ents)).flatten = ents := by
+  intro fuel
+  induction fuel with
+  | zero => intro st ds ents h; omega
+  | succ f ih =>
+    intro st ds ents h
+    cases ents with
+    | nil => simp [dirEndGoM]
+    | cons first rest =>
+      simp only [dirEndGoM, List.map_cons, List.flatten_cons]
+      obtain ⟨h1, _, h3, _, _⟩ := conseqCount_spec st.cur.length first rest
+      rw [ih]
+      · exact List.take_append_drop _ _
+      · simp only [List.length_drop]; simp only [List.length_cons] at h h3 ⊢; omega
+
+/-! ### bytes and positions -/
+
+theorem le16_length (v : Nat) : (le16 v).length = 2 := rfl
+theorem le32_length (v : Nat) : (le32 v).length = 4 := rfl
+
+theorem headerBytes_length (c b n : Nat) : (headerBytes c b n).length = sizeofDirHeader := rfl
+
+theorem nodeBytes_length (f : Nat) (e : DEnt) : (nodeBytes f e).length = sizeofDirNode := rfl
+
+theorem encodeEnt_eq (f : Nat) (e : DEnt) : encodeEnt f e = nodeBytes f e ++ e.name := rfl
+
+theorem encodeRun_eq (r : Run) :
+    encodeRun r = headerBytes r.ents.length r.startBlock r.inodeNumber ++ (r.ents.map (encodeEnt r.inodeNumber)).flatten := rfl
+
+theorem encodeEnt_length (f : Nat) (e : DEnt) : (encodeEnt f e).length = entSize e := by
+  rw [encodeEnt_eq, List.length_append, nodeBytes_length]; rfl
+
+theorem runChunks_flatten (r : Run) : (runChunks r).flatten = encodeRun r := by
+  rw [encodeRun_eq]
+  unfold runChunks
+  simp only [List.flatten_cons]
+  congr 1
+  induction r.ents with
+  | nil => rfl
+  | cons e es ih => simp [encodeEnt_eq, ih]
+
+theorem encodeRun_length (r : Run) : (encodeRun r).length = runBytes r.ents := by
+  rw [encodeRun_eq]
+  unfold runBytes
+  rw [List.length_append, headerBytes_length]
+  congr 1
+  induction r.ents with
+  | nil => rfl
+  | cons e es ih => simp [encodeEnt_length, ih]
+
+open Sqfs.MetaWriter in
+/--
+Position bookkeeping of `sqfs_dir_writer_end` on a real meta writer: the writer stays well formed, never touches
+blocks it flushed before, the bytes appended are the encoded runs, and for the `k`-th header: `index` is
+`dir_size` at that moment = `ds` + the bytes of the runs before it; `block` is the disk size of exactly the blocks
+that precede the metadata block in which the header's first byte lies.
+-/
+theorem dirEndGoM_pos (cmp : Codec) : ∀ (fuel : Nat) (st : St) (ds : Nat) (ents : List DEnt), WF cmp st → ents.length < fuel →
+    WF cmp (dirEndGoM cmp fuel st ds ents).2 ∧ Ext st (dirEndGoM cmp fuel st ds ents).2 ∧
+    stream (dirEndGoM cmp fuel st ds ents).2 = stream st ++ ((dirEndGoM cmp fuel st ds ents).1.map encodeRun).flatten ∧
+    ∀ (k : Nat) (r : Run), (dirEndGoM cmp fuel st ds ents).1[k]? = some r →
+      r.index = ds + ((((dirEndGoM cmp fuel st ds ents).1.take k).map encodeRun).flatten).length ∧
+      ((stream st).length + (r.index - ds)) / metaBlockSize ≤ (dirEndGoM cmp fuel st ds ents).2.out.length ∧
+      r.block = outBytes ((dirEndGoM cmp fuel st ds ents).2.out.take (((stream st).length + (r.index - ds)) / metaBlockSize)) := by
+  intro fuel
+  induction fuel with
+  | zero => intro st ds ents _ h; omega
+  | succ f ih =>
+    intro st ds ents hwf h
+    cases ents with
+    | nil => simp [dirEndGoM, hwf, Ext.refl]
+    | cons first rest =>
+      obtain ⟨c1, _, c3, _, _⟩ := conseqCount_spec st.cur.length first rest
+      simp only [dirEndGoM]
+      generalize hr0 : (⟨(first :: rest).take (conseqCount st.cur.length (first :: rest)), (first.inodeRef >>> 16) % 4294967296,
+        first.inodeNum, ds, st.blockOffset⟩ : Run) = r0
+      have hr0e : r0.ents = (first :: rest).take (conseqCount st.cur.length (first :: rest)) := by rw [← hr0]
+      have hr0i : r0.index = ds := by rw [← hr0]
+      have hr0b : r0.block = st.blockOffset := by rw [← hr0]
+      obtain ⟨w1, w2, w3⟩ := foldl_append_wf cmp (runChunks r0) st hwf
+      rw [runChunks_flatten] at w3
+      generalize (runChunks r0).foldl (append cmp) st = st' at w1 w2 w3
+      obtain ⟨i1, i2, i3, i4⟩ := ih st' (ds + runBytes ((first :: rest).take (conseqCount st.cur.length (first :: rest))))
+        ((first :: rest).drop (conseqCount st.cur.length (first :: rest))) w1
+        (by simp only [List.length_drop]; simp only [List.length_cons] at h c3 ⊢; omega)
+      rw [← hr0e] at i1 i2 i3 i4 ⊢
+      generalize dirEndGoM cmp f st' (ds + runBytes r0.ents)
+        ((first :: rest).drop (conseqCount st.cur.length (first :: rest))) = next at i1 i2 i3 i4 ⊢
+      refine ⟨i1, Ext.trans w2 i2, ?_, ?_⟩
+      · rw [i3, w3]; simp [List.append_assoc]
+      · intro k r hk
+        cases k with
+        | zero =>
+          simp only [List.getElem?_cons_zero, Option.some.injEq] at hk
+          subst hk
+          have hlen : st.out.length = (stream st).length / metaBlockSize := hwf.blocks
+          have hext := (Ext.trans w2 i2).take
+          obtain ⟨bs, hbs⟩ := Ext.trans w2 i2
+          refine ⟨by simp [hr0i], ?_, ?_⟩
+          · rw [hr0i, Nat.sub_self, Nat.add_zero, ← hlen, hbs]; simp
+          · rw [hr0i, Nat.sub_self, Nat.add_zero, ← hlen, hext, hr0b]; exact hwf.off
+        | succ j =>
+          simp only [List.getElem?_cons_succ] at hk
+          obtain ⟨j1, j2, j3⟩ := i4 j r hk
+          have hsl : (stream st').length = (stream st).length + runBytes r0.ents := by
+            rw [w3, List.length_append, encodeRun_length]
+          have hge : ds + runBytes r0.ents ≤ r.index := by omega
+          have hpos : (stream st').length + (r.index - (ds + runBytes r0.ents)) = (stream st).length + (r.index - ds) := by
+            omega
+          rw [hpos] at j2 j3
+          refine ⟨?_, j2, j3⟩
+          rw [j1]
+          simp only [List.take_succ_cons, List.map_cons, List.flatten_cons, List.length_append, encodeRun_length]
+          omega
+
+/-! #### the same two facts for the coarser model `dirEnd blkCost` (users: C01) -/
+
 theorem dirEndGo_runs_ok (c : Nat) : ∀ (fuel blk off ds : Nat) (ents : List DEnt),
     ∀ r ∈ dirEndGo c fuel blk off ds ents, RunOk r := by
   intro fuel
@@ -158,5 +302,173 @@ theorem delta_roundtrip (num first : Nat) (hn : num < 4294967296) (hf : first < 
   by_cases hc : x % 4294967296 < 2147483648
   · rw [if_pos hc] at h1 h2; split <;> omega
   · rw [if_neg hc] at h1 h2; split <;> omega
+
+/-! ### export table -/
+
+theorem addExport_length (t : List Nat) (n r : Nat) (hn : 1 ≤ n) : (addExport t n r).length = max t.length n := by
+  unfold addExport
+  simp only [List.length_set]
+  split
+  · simp only [List.length_append, List.length_replicate]; omega
+  · omega
+
+theorem addExport_get (t : List Nat) (n r i : Nat) (hn : 1 ≤ n) :
+    (addExport t n r)[i]? =
+      if i = n - 1 then some r else if i < t.length then t[i]? else if i < n then some exportUnset else none := by
+  unfold addExport
+  by_cases hg : n - 1 ≥ t.length
+  · simp only [hg, if_true]
+    by_cases hi : i = n - 1
+    · subst hi
+      rw [List.getElem?_set_self (by simp only [List.length_append, List.length_replicate]; omega)]
+      simp
+    · rw [if_neg hi, List.getElem?_set_ne (Ne.symm hi)]
+      by_cases hl : i < t.length
+      · rw [if_pos hl, List.getElem?_append_left hl]
+      · rw [if_neg hl, List.getElem?_append_right (by omega), List.getElem?_replicate]
+        by_cases hn' : i < n
+        · rw [if_pos hn', if_pos (by omega)]
+        · rw [if_neg hn', if_neg (by omega)]
+  · simp only [hg, if_false]
+    by_cases hi : i = n - 1
+    · subst hi
+      rw [List.getElem?_set_self (by omega)]
+      simp
+    · rw [if_neg hi, List.getElem?_set_ne (Ne.symm hi)]
+      by_cases hl : i < t.length
+      · rw [if_pos hl]
+      · rw [if_neg hl, List.getElem?_eq_none (by omega)]
+        rw [if_neg (by omega)]
+
+/-- largest inode number among the adds (0 if none) -/
+def maxNum (adds : List (Nat × Nat)) : Nat := adds.foldl (fun m a => max m a.1) 0
+
+/-- what a table holds after the adds `L` when inode `m` always comes with reference `ref m` -/
+def ExportOk (ref : Nat → Nat) (L : List (Nat × Nat)) (t : List Nat) : Prop :=
+  t.length = maxNum L ∧ ∀ i, i < t.length → t[i]? = some (if i + 1 ∈ L.map (·.1) then ref (i + 1) else exportUnset)
+
+theorem maxNum_snoc (L : List (Nat × Nat)) (a : Nat × Nat) : maxNum (L ++ [a]) = max (maxNum L) a.1 := by
+  simp [maxNum, List.foldl_append]
+
+theorem exportOk_step (ref : Nat → Nat) (L : List (Nat × Nat)) (t : List Nat) (a : Nat × Nat) (h : ExportOk ref L t)
+    (ha : 1 ≤ a.1) (hr : a.2 = ref a.1) : ExportOk ref (L ++ [a]) (addExport t a.1 a.2) := by
+  obtain ⟨h1, h2⟩ := h
+  refine ⟨by rw [addExport_length _ _ _ ha, maxNum_snoc, h1], ?_⟩
+  intro i hi
+  rw [addExport_length _ _ _ ha] at hi
+  rw [addExport_get _ _ _ _ ha]
+  simp only [List.map_append, List.map_cons, List.map_nil, List.mem_append, List.mem_singleton]
+  by_cases hia : i = a.1 - 1
+  · rw [if_pos hia]
+    have : i + 1 = a.1 := by omega
+    simp [this, hr]
+  · rw [if_neg hia]
+    have hne : ¬ (i + 1 = a.1) := by omega
+    by_cases hl : i < t.length
+    · rw [if_pos hl, h2 i hl]; simp only [hne, or_false]
+    · rw [if_neg hl, if_pos (by omega)]
+      have hnm : ¬ (i + 1 ∈ L.map (·.1)) := by
+        intro hm
+        -- every number in L is at most maxNum L = t.length
+        have : ∀ (L : List (Nat × Nat)) (m0 : Nat) (x : Nat), x ∈ L.map (·.1) → x ≤ L.foldl (fun m a => max m a.1) m0 := by
+          intro L
+          induction L with
+          | nil => intro m0 x hx; simp at hx
+          | cons b bs ih =>
+            intro m0 x hx
+            simp only [List.map_cons, List.mem_cons] at hx
+            simp only [List.foldl_cons]
+            rcases hx with hx | hx
+            · subst hx
+              have hmono : ∀ (bs : List (Nat × Nat)) (m0 : Nat), m0 ≤ bs.foldl (fun m a => max m a.1) m0 := by
+                intro bs
+                induction bs with
+                | nil => intro m0; simp
+                | cons c cs ihc => intro m0; simp only [List.foldl_cons]; exact Nat.le_trans (Nat.le_max_left _ _) (ihc _)
+              exact Nat.le_trans (Nat.le_max_right _ _) (hmono bs _)
+            · exact ih _ x hx
+        have := this L 0 (i + 1) hm
+        unfold maxNum at h1
+        omega
+      simp [hnm, hne]
+
+theorem exportOk_fold (ref : Nat → Nat) : ∀ (adds L : List (Nat × Nat)) (t : List Nat), ExportOk ref L t →
+    (∀ a ∈ adds, 1 ≤ a.1 ∧ a.2 = ref a.1) →
+    ExportOk ref (L ++ adds) (adds.foldl (fun t a => addExport t a.1 a.2) t) := by
+  intro adds
+  induction adds with
+  | nil => intro L t h _; simpa using h
+  | cons a as ih =>
+    intro L t h ha
+    simp only [List.foldl_cons]
+    have := ih (L ++ [a]) _ (exportOk_step ref L t a h (ha a List.mem_cons_self).1 (ha a List.mem_cons_self).2)
+      (fun b hb => ha b (List.mem_cons_of_mem _ hb))
+    simpa [List.append_assoc] using this
+
+/-! ### the coarser `dirEnd blkCost` is `dirEndM` for a compressor that never shrinks -/
+
+open Sqfs.MetaWriter in
+/-- under a compressor that never shrinks every flushed block occupies 8192 + 2 bytes -/
+theorem raw_outBytes (st : St) (hi : Inv (fun _ => none) st) : outBytes st.out = 8194 * st.out.length := by
+  have h : ∀ (bs : List Block), (∀ b ∈ bs, b.raw.length = metaBlockSize) → (∀ b ∈ bs, Made (fun _ => none) b) →
+      outBytes bs = 8194 * bs.length := by
+    intro bs
+    induction bs with
+    | nil => intro _ _; rfl
+    | cons b bs ih =>
+      intro hf hm
+      rw [outBytes_cons, ih (fun x hx => hf x (List.mem_cons_of_mem _ hx)) (fun x hx => hm x (List.mem_cons_of_mem _ hx))]
+      have hb := hm b List.mem_cons_self
+      have hl := hf b List.mem_cons_self
+      have : b.stored = b.raw := by
+        cases hc : b.compressed with
+        | false => exact hb.2 hc
+        | true => have := (hb.1 hc).1; simp at this
+      rw [this, hl, mb_eq, List.length_cons]; omega
+  exact h st.out hi.full hi.made
+
+open Sqfs.MetaWriter in
+theorem dirEndGo_eq_dirEndGoM : ∀ (fuel : Nat) (st : St) (ds : Nat) (ents : List DEnt), WF (fun _ => none) st →
+    dirEndGo 8194 fuel st.blockOffset st.cur.length ds ents = (dirEndGoM (fun _ => none) fuel st ds ents).1 := by
+  intro fuel
+  induction fuel with
+  | zero => intro st ds ents _; rfl
+  | succ f ih =>
+    intro st ds ents hwf
+    cases ents with
+    | nil => rfl
+    | cons first rest =>
+      simp only [dirEndGo, dirEndGoM]
+      generalize hr0 : (⟨(first :: rest).take (conseqCount st.cur.length (first :: rest)), (first.inodeRef >>> 16) % 4294967296,
+        first.inodeNum, ds, st.blockOffset⟩ : Run) = r0
+      have hr0e : r0.ents = (first :: rest).take (conseqCount st.cur.length (first :: rest)) := by rw [← hr0]
+      obtain ⟨w1, _, w3⟩ := foldl_append_wf (fun _ => none) (runChunks r0) st hwf
+      rw [runChunks_flatten] at w3
+      -- position after the run
+      have hpos : advance 8194 st.blockOffset st.cur.length (runBytes r0.ents) =
+          (((runChunks r0).foldl (append (fun _ => none)) st).blockOffset, ((runChunks r0).foldl (append (fun _ => none)) st).cur.length) := by
+        generalize (runChunks r0).foldl (append (fun _ => none)) st = st' at w1 w3
+        have hl : (stream st').length = (stream st).length + runBytes r0.ents := by
+          rw [w3, List.length_append, encodeRun_length]
+        have a1 := hwf.blocks; have a2 := hwf.offset
+        have b1 := w1.blocks; have b2 := w1.offset
+        have c1 := raw_outBytes st hwf.inv; have c2 := raw_outBytes st' w1.inv
+        have d1 : st.blockOffset = outBytes st.out := hwf.off
+        have d2 : st'.blockOffset = outBytes st'.out := w1.off
+        have hs := inv_stream_length _ st hwf.inv
+        unfold advance
+        rw [mb_eq] at *
+        refine Prod.ext ?_ ?_
+        · simp only; rw [d2, c2, b1, hl, d1, c1, a1]; omega
+        · simp only; rw [b2, hl, a2]; omega
+      rw [← hr0e, hpos]
+      simp only
+      rw [ih _ _ _ w1]
+
+/-- `dirEnd 8194 blk off` (the model C01 builds on) is the run list of `dirEndM` on any well-formed meta writer at
+position `(blk, off)` whose compressor never shrinks -/
+theorem dirEnd_eq_dirEndM (st : MetaWriter.St) (ents : List DEnt) (hwf : MetaWriter.WF (fun _ => none) st) :
+    dirEnd 8194 st.blockOffset st.cur.length ents = (dirEndM (fun _ => none) st ents).1 :=
+  dirEndGo_eq_dirEndGoM _ st 0 ents hwf
 
 end Sqfs.DirWriter
